@@ -191,6 +191,9 @@ func Blocked() int { return 0 }
 
 func Finish() {}
 
+// DumpGoroutines records the blocked goroutines (engine only; debugging aid).
+func DumpGoroutines() {}
+
 // Stub redirects calls of the named function to fn under the engine (used
 // for third-party code that needs reflection, e.g. bindnode).  Natively the
 // real function runs.
